@@ -732,6 +732,24 @@ pub fn hook_generate_type(env: crate::intermediate::TaggingEnvironment, implied:
     let mut backend = crate::generator::rasn::Rasn::default();
     match backend.generate_module(vec![tld]) { Ok(m) if m.warnings.is_empty() => Ok(m.generated.unwrap_or_default()), Ok(m) => Err(format!("warnings: {:?}", m.warnings.iter().map(|w| w.to_string()).collect::<Vec<_>>())), Err(e) => Err(format!("{e:?}")) }
 }
+/// accessor for the native replay of unit GEN_module: ONE backend object generates two modules in a row (each a single `T ::= SEQUENCE { f0 BOOLEAN }`),
+/// the first with defaults `first`, the second with defaults `second` = (tagging default, EXTENSIBILITY IMPLIED); returns the text of the SECOND module
+#[cfg(not(kani))]
+pub fn hook_generate_two_modules(first: (crate::intermediate::TaggingEnvironment, bool), second: (crate::intermediate::TaggingEnvironment, bool)) -> Result<String, String> {
+    use crate::generator::Backend;
+    use std::{cell::RefCell, rc::Rc};
+    let mut backend = crate::generator::rasn::Rasn::default();
+    let mut last = Err("no module generated".to_string());
+    for (i, (env, implied)) in [first, second].into_iter().enumerate() {
+        let h = Rc::new(RefCell::new(ModuleHeader { name: format!("M{i}"), module_identifier: None, encoding_reference_default: None, tagging_environment: env,
+            extensibility_environment: if implied { ExtensibilityEnvironment::Implied } else { ExtensibilityEnvironment::Explicit }, imports: vec![], exports: None }));
+        let ty = ASN1Type::Sequence(crate::intermediate::types::SequenceOrSet { components_of: vec![], extensible: None, constraints: vec![], members: vec![crate::intermediate::types::SequenceOrSetMember {
+            name: "f0".into(), tag: None, ty: ASN1Type::Boolean(crate::intermediate::types::Boolean { constraints: vec![] }), optionality: crate::intermediate::types::Optionality::Required, is_recursive: false, constraints: vec![] }] });
+        let tld = ToplevelDefinition::Type(ToplevelTypeDefinition { comments: String::new(), tag: None, name: "T".into(), ty, parameterization: None, module_header: Some(h) });
+        last = match backend.generate_module(vec![tld]) { Ok(m) if m.warnings.is_empty() => Ok(m.generated.unwrap_or_default()), Ok(m) => Err(format!("warnings: {:?}", m.warnings.iter().map(|w| w.to_string()).collect::<Vec<_>>())), Err(e) => Err(format!("{e:?}")) };
+    }
+    last
+}
 /// accessors for the native replay of the Verus unit GEN_members (token text as proc_macro2 prints it)
 #[cfg(not(kani))]
 pub fn hook_format_sequence_member(m: &crate::intermediate::types::SequenceOrSetMember, parent: &str, ext: &str) -> Result<(String, String), String> {
